@@ -280,5 +280,5 @@ def p4_multifile(ctx, case, sp, p, which):
 
 
 FAMILIES = [
-    Family('libraries', lambda ctx, case: check_lib(ctx, case), strategy=lambda tier: lib_case(), n=(480, 36000)),
+    Family('libraries', lambda ctx, case: check_lib(ctx, case), strategy=lambda tier: lib_case(), n=(1000, 36000)),
 ]
